@@ -202,45 +202,10 @@ def rule_r1(ctx: Ctx) -> Automaton:
     return a
 
 
-def rule_r2(ctx: Ctx, a: Automaton) -> None:
+def rule_r2(ctx: Ctx) -> None:
     repo = ctx.repo
-    ctx.rule("C03.R2", "fields and constants are only appended, only from the deferred callbacks; every attribute statement queues exactly one callback; visitor children map to the grammar positions", min_instances=8)
-    dsb = ctx.cls("_data_schema_builder.DataSchemaBuilder")
-    for attr, adder in (("_fields", "add_field"), ("_constants", "add_constant")):
-        writers = []
-        for name, fn in dsb.methods.items():
-            for n in walk_no_nested(fn.node):
-                if isinstance(n, ast.Call) and isinstance(n.func, ast.Attribute) and norm(n.func.value) == "self." + attr:
-                    writers.append((name, n.func.attr))
-                if isinstance(n, (ast.Assign, ast.AugAssign, ast.AnnAssign)) and name != "__init__":
-                    tg = n.targets if isinstance(n, ast.Assign) else [n.target]
-                    if any(norm(t).startswith("self." + attr) for t in tg):
-                        writers.append((name, "store"))
-                if isinstance(n, ast.AugAssign) and False:
-                    pass
-        ctx.check(writers == [(adder, "append")], dsb.short + "." + attr, "writers: %s" % writers, "attributes are appended in arrival order and never reordered or removed", dsb.module.relpath)
-    # attributes accessor: fields and constants, each in its own order
-    acc = dsb.methods.get("attributes")
-    if acc is None:
-        raise AnalysisError("DataSchemaBuilder.attributes missing")
-    src = norm(acc.node)
-    ctx.check("self.fields" in src and "self.constants" in src and "sorted(" not in src and "reversed(" not in src, acc.short, "fields and constants, unsorted", "the attribute list preserves the source order of fields and of constants", acc.where())
-    b = a.pl.builder
-    ctor = {"on_field": ("Field", "add_field"), "on_constant": ("Constant", "add_constant"), "on_padding_field": ("PaddingField", "add_field")}
-    callers: Dict[str, List[str]] = {"add_field": [], "add_constant": []}
-    for name, fn in b.methods.items():
-        for c in calls_in(fn.node, include_nested=True):
-            if isinstance(c.func, ast.Attribute) and c.func.attr in callers:
-                callers[c.func.attr].append(name)
-    ctx.check(sorted(callers["add_field"]) == ["on_field", "on_padding_field"] and callers["add_constant"] == ["on_constant"], b.short, "add_field <- %s; add_constant <- %s" % (sorted(callers["add_field"]), callers["add_constant"]), "attributes enter the schema only through the deferred callbacks of the three attribute events", b.module.relpath)
-    for m, (klass, adder) in ctor.items():
-        fn = b.methods.get(m)
-        if fn is None:
-            raise AnalysisError("anchor DataTypeBuilder.%s missing" % m)
-        # exactly one QUEUE on every completing path from a state with nothing pending
-        outs = Interp(a.pl).run_method(b, m, (False, False, 0, False))
-        counts = sorted({sum(1 for e in eff if e.kind == "QUEUE") for _, eff in outs})
-        ctx.check(counts == [1], fn.short, "QUEUE count per path: %s" % counts, "each attribute statement queues exactly one deferred commit", fn.where())
+    ctx.rule("C03.R2", "every attribute statement yields exactly one model attribute built from the statement's own type, name and value (children at the grammar positions), with the comment flushed after it; fields and constants keep their source order", min_instances=2)
+    b = ctx.cls("_data_type_builder.DataTypeBuilder")
     # the deferred commits build the right attributes from the events' arguments and the comments flushed after them: the
     # builder is driven through its public interface (builder_common) and what reaches the composite is compared
     from ..fold import Sym
@@ -268,33 +233,18 @@ def rule_r2(ctx: Ctx, a: Automaton) -> None:
     # fields (with paddings) in source order, constants in source order; how the two interleave is not specified
     split = lambda xs: ([x for x in xs if x[0] != "Constant"], [x for x in xs if x[0] == "Constant"])  # noqa: E731
     ctx.check(split(got) == split(want) and len(got) == len(want), b.short, "deferred commits -> %s" % [g[:3] for g in got], "the committed attribute is built from the statement's own (type, name[, value]) and the flushed comment; fields and constants keep their source order", b.module.relpath, {"found": got, "expected": want})
-    # visitor children <-> grammar positions
-    g = a.g
-    pt = a.parser
-    mapping = {
-        "statement_field": (["type", "identifier"], "on_field"),
-        "statement_constant": (["type", "identifier", "expression"], "on_constant"),
-    }
-    for rule, (wanted, sink) in mapping.items():
-        fn = pt.methods["visit_" + rule]
-        node = g.rule(rule)
-        seq = node[1] if node[0] == "seq" else [node]
-        idx = []
-        for w in wanted:
-            pos = [i for i, x in enumerate(seq) if x == ("ref", w)]
-            if len(pos) != 1:
-                raise AnalysisError("grammar rule %s has no unique %s" % (rule, w))
-            idx.append(pos[0])
-        unpack = None
-        for st in body_without_docstring(fn.node):
-            if isinstance(st, ast.Assign) and isinstance(st.targets[0], ast.Tuple) and norm(st.value) == fn.params[2]:
-                unpack = [norm(t) for t in st.targets[0].elts]
-        call = [c for c in calls_in(fn.node) if isinstance(c.func, ast.Attribute) and c.func.attr == sink]
-        good = unpack is not None and len(unpack) == len(seq) and len(call) == 1 and [norm(x) for x in call[0].args] == [unpack[i] for i in idx]
-        ctx.check(good, fn.short, "%s(%s)" % (sink, ", ".join(norm(x) for x in call[0].args) if call else "?"), "the visitor passes the children at the grammar positions of %s" % wanted, fn.where(), {"unpack": unpack, "grammar": g.show(node)})
-    fn = pt.methods["visit_statement_padding_field"]
-    call = [c for c in calls_in(fn.node) if isinstance(c.func, ast.Attribute) and c.func.attr == "on_padding_field"]
-    ctx.check(len(call) == 1 and norm(call[0].args[0]) in ("children[0]", "void_type"), fn.short, "on_padding_field(<the void type child>)", "padding statements pass their void type", fn.where(), nontrivial=False)
+    # visitor children <-> grammar positions: statements are visited with children laid out as the grammar rule says (document
+    # model); the attribute that comes into being must carry the type / name / value object of its own statement
+    from .parser_common import Line, ParserModel, read_lines
+
+    pm = ParserModel(ctx)
+    lines = [Line("D"), Line("F", "a"), Line("K", "X"), Line("P"), Line("F", "b"), Line("K", "Y")]
+    r2 = read_lines(pm, lines, True)
+    if r2.raised:
+        raise AnalysisError("the parser over an abstract text raised %s" % r2.raised)
+    want_ops = [("Field", "a", "type@1", None), ("Constant", "X", "type@2", "value@2"), ("PaddingField", "", "void@3", None), ("Field", "b", "type@4", None), ("Constant", "Y", "type@5", "value@5")]
+    ctx.count()
+    ctx.check(r2.operands == want_ops, "_parser._ParseTreeProcessor", "statement operands reach the model: %s" % r2.operands, "each attribute is built from the children at the grammar positions of its own statement (type, identifier, expression)", "pydsdl/_parser.py", {"expected": want_ops})
 
 
 def rule_r4(ctx: Ctx) -> None:
@@ -345,9 +295,9 @@ def rule_r4(ctx: Ctx) -> None:
     ctx.check(not bad_svc, fin.short, "ServiceType(request=<first schema>, response=<second schema>)", "the part before `---` is the request, the part after it the response", fin.where(), bad_svc[:2])
 
 
-def rule_r5(ctx: Ctx, a: Automaton) -> None:
+def rule_r5(ctx: Ctx, a: Optional[Automaton]) -> None:
     ctx.rule("C03.R5", "grammar: end_of_line = CR? LF, `_` = blanks/tabs, final end-of-line optional, trailing blanks and comments allowed after a statement, comments run to the end of the line", min_instances=5)
-    g = a.g
+    g = a.g if a is not None else Grammar.load(ctx.repo)
     alpha = list("ab# \t\r\n") + [rx.OTHER]
 
     def lang_equal(rule: str, pattern: str, what: str) -> None:
@@ -438,7 +388,7 @@ def rule_r6(ctx: Ctx) -> None:
 
     ctx.rule("C03.R6", "every attribute statement appears exactly once, in source order, in its own section, with the comment block attached to it; the section headers get the top comment block; empty lines, blank lines, extra comments and the presence of a final newline do not change the model (abstract texts: all sequences of line shapes up to a bound, messages and services)", min_instances=2)
     pm = ParserModel(ctx)
-    alphabet = ["F", "Ft", "K", "P", "C", "B", "W"]
+    alphabet = ["F", "Ft", "K", "P", "C", "B", "W", "O"]
 
     def mk(seq: Any, prefix: str) -> List[Any]:
         out = []
@@ -480,8 +430,26 @@ def rule_r6(ctx: Ctx) -> None:
             ctx.count()
             sections = [c for c in r.composites if c[0] in ("StructureType", "UnionType")]
             got_headers = [c[2] for c in sections]
-            if r.raised or r.attrs != want_attrs or got_headers != want_headers:
-                d = {"text": text_of(lines, final_eol), "found": {"attributes": r.attrs, "section docs": got_headers, "raised": r.raised}, "expected": {"attributes": want_attrs, "section docs": want_headers}}
+            # a directive whose expression reads the schema sees exactly the fields above it in its section (8 bits each)
+            want_offsets, got_offsets = [], []
+            for idx, v in r.offsets:
+                above = 0
+                for l2 in lines[:idx][::-1]:
+                    if l2.kind == "M":
+                        break
+                    above += 1 if l2.kind in ("F", "P") else 0
+                want_offsets.append((idx, frozenset([8 * above])))
+                t = v
+                for _ in range(6):
+                    if getattr(t, "_kind_", None) in ("Set", "Rational") and getattr(t, "payload", None):
+                        t = t.payload[0]
+                    elif isinstance(t, (tuple, list)) and len(t) == 1:
+                        t = t[0]
+                    elif isinstance(t, tuple) and len(t) == 2 and t[0] == "ELEMENTS-OF":
+                        t = t[1]
+                got_offsets.append((idx, t[1] if isinstance(t, tuple) and len(t) == 2 and t[0] == "leaf" else repr(v)[:80]))
+            if r.raised or r.attrs != want_attrs or got_headers != want_headers or got_offsets != want_offsets:
+                d = {"text": text_of(lines, final_eol), "found": {"attributes": r.attrs, "section docs": got_headers, "raised": r.raised, "_offset_ read at line": got_offsets}, "expected": {"attributes": want_attrs, "section docs": want_headers, "_offset_ read at line": want_offsets}}
                 # a text that differs from an accepted one only in blanks on an otherwise empty line is a formatting matter
                 (bad_format if any(l.kind == "W" for l in lines) and not r.raised else bad_model).append(d)
     fn = ctx.func("_parser._ParseTreeProcessor.visit_line")
@@ -491,14 +459,23 @@ def rule_r6(ctx: Ctx) -> None:
 
 
 def run(ctx: Ctx) -> None:
-    a = rule_r1(ctx)
-    ctx.attempt(rule_r2, ctx, a)
+    a = None
+    try:
+        a = rule_r1(ctx)
+    except AnalysisError as ex:
+        # the typestate machine reads the roles of a few fields off the code (pending-commit slot, header flag, list of
+        # sections); a different private representation is outside it.  R6 decides the same clauses extensionally.
+        ctx.rule("C03.R1", "pending-attribute typestate over all line shapes and endings: never overwritten, never pending at a schema read / `---` / end of input", min_instances=0)
+        ctx.skip_rule("C03.R1", str(ex), "C03.R6 (document model: every sequence of line shapes up to the bound, both endings, schema reads)")
+    ctx.attempt(rule_r2, ctx)
     from . import c05b
 
     ctx.rule("C03.R3", "directive table: each Specification directive reaches a handler with the specified effect (decision tables shared with C05.R8)", min_instances=9)
     c05b.rule_r8_directives(ctx, rid="C03.R3")
     ctx.attempt(rule_r4, ctx)
-    ctx.attempt(rule_r5, ctx, a)
     ctx.attempt(rule_r6, ctx)
+    ctx.attempt(rule_r5, ctx, a)
+    if ctx.skipped_rules and any("rule_r6" in e for e in ctx.errors):
+        ctx.error("C03.R1 could not be instantiated and C03.R6, which would have covered it, could not either")
     ctx.assume("parsimonious visits children before their parent, left to right (NodeVisitor.visit as written in nodes.py)")
     ctx.undecided("equality of the re-parsed canonical rendering (a round trip over values)")
